@@ -408,7 +408,11 @@ def apply_ops(rec, hist, soft=False):
                 if not check_export(i, data, "save"):
                     return nontrivial
                 if target == path:
-                    pass
+                    # the object's own save is not an external change: nothing to reload, in-memory state stays
+                    st, res = call(db.load_if_changed)
+                    if st == "err" or res is not False:
+                        fail("load_if_changed-after-own-save", "load_if_changed() right after the object's own save() reloads the file (later unsaved edits would be discarded)", i, repr(res), False)
+                        return nontrivial
             elif name == "reload":
                 # save (to bound path or explicit), then re-open from path
                 st, res = call(db.save, path)
